@@ -580,6 +580,15 @@ pub fn tworlds(id: &str, tier: Tier) -> Vec<crate::threaded::TSpec> {
                 if !quick {
                     add(name.into(), kind.clone(), 3, false, None, 2);
                     add(name.into(), kind.clone(), 1, true, Some(0), 3);
+                    add(name.into(), kind.clone(), 1, true, None, 4);
+                    add(name.into(), kind.clone(), 2, false, None, 5);
+                    add(name.into(), kind.clone(), 2, true, None, 4);
+                    add(name.into(), kind.clone(), 1, true, None, 6);
+                    if matches!(kind, TKind::Merge(_)) {
+                        add(name.into(), kind.clone(), 2, false, None, 4);
+                        add(name.into(), kind.clone(), 1, true, None, u32::MAX);
+                        add(name.into(), kind.clone(), 2, false, None, u32::MAX);
+                    }
                 }
             }
             for (kind, name) in [(TKind::Merge(3), "merge/3"), (TKind::Combine(3), "combine/3")] {
@@ -589,6 +598,8 @@ pub fn tworlds(id: &str, tier: Tier) -> Vec<crate::threaded::TSpec> {
                 if !quick {
                     add(name.into(), kind.clone(), 2, false, None, 2);
                     add(name.into(), kind.clone(), 1, false, Some(2), 3);
+                    add(name.into(), kind.clone(), 1, false, None, 4);
+                    add(name.into(), kind.clone(), 1, true, None, 3);
                 }
             }
         },
